@@ -187,6 +187,9 @@ def run_tg_case(case):
         classes.append("textgrid_longer_than_tiers")
         if any(s > t["maxT"] for t in spec["tiers"]):
             classes.append("s_beyond_a_tier")
+            k = min(i for i, t in enumerate(spec["tiers"]) if s > t["maxT"])
+            if any(spec["tiers"][k]["maxT"] < e[0] <= s for t in spec["tiers"][k + 1:] for e in t["entries"]):
+                classes.append("s_beyond_an_earlier_tier_and_after_entries_of_a_later_one")
     classes = sorted(set(classes))
     return {"classes": classes, "nontrivial": bool({"straddler", "entry_starts_at_s", "point_at_s"} & set(classes))}
 
@@ -255,6 +258,14 @@ def tier_cases(draw):
                           gen.interval_tier(style=style, max_segments=7),
                           gen.point_tier(style=style, dups=True)))
     s = draw(s_for([spec["entries"]], style, spec["minT"], spec["maxT"]))
+    if spec["type"] == "interval" and style != "grid" and draw(st.integers(0, 5)) == 0:
+        # two adjacent same-labelled intervals closer to each other than the library's fuzzy entry equality,
+        # the insertion point strictly inside one of them
+        b0 = max([e[1] for e in spec["entries"]] + [spec["minT"]]) + draw(st.sampled_from([0.0, 0.5]))
+        w = max(b0, 1.0) * 3e-10
+        spec["entries"] = spec["entries"] + [[b0, b0 + w, "a"], [b0 + w, b0 + 2 * w, "a"]]
+        spec["maxT"] = max(spec["maxT"], b0 + 2 * w)
+        s = b0 + w * draw(st.sampled_from([0.5, 1.5]))
     pre = draw(st.one_of(st.none(), st.none(), st.fixed_dictionaries({"delete": st.one_of(st.none(), st.integers(0, 7))})))
     return {"tier": spec, "s": s, "d": draw(durations(style)), "mode": draw(st.sampled_from(MODES)), "pre": pre}
 
@@ -262,7 +273,7 @@ def tier_cases(draw):
 @st.composite
 def tg_cases(draw):
     style = draw(gen.STYLES_ARITH)
-    spec = draw(gen.textgrid(style=style, max_tiers=4, label=gen.AB))
+    spec = draw(gen.textgrid(style=style, max_tiers=4, label=gen.AB, clean=draw(st.integers(0, 2)) > 0))  # not clean: tiers of different lengths
     if draw(st.integers(0, 3)) == 0:
         spec["maxT"] = spec["maxT"] + 1.0  # a textgrid that is longer than its tiers
     s = draw(s_for([t["entries"] for t in spec["tiers"]], style, spec["minT"], spec["maxT"]))
